@@ -44,7 +44,17 @@ func writePhase(x *explore.Ctx, cfg WConfig, prog int, tier string, mask *MaskRe
 		wpOnEnv(e)
 	}
 	levels := levelsOf(tier)
-	n := e.Sizes[x.Pick(len(e.Sizes), "size")]
+	var n int
+	if cfg.SizeIdx > 0 {
+		// the size dimension is spread over scenarios (finer work units for the worker pool)
+		n = e.Sizes[(cfg.SizeIdx-1)%len(e.Sizes)]
+		if cfg.SizeIdx-1 >= len(e.Sizes) {
+			x.Obs("size index beyond the set for this buffer size")
+			return e
+		}
+	} else {
+		n = e.Sizes[x.Pick(len(e.Sizes), "size")]
+	}
 	nmsgs := 2
 	if tier == "thorough" {
 		nmsgs = 3
@@ -60,9 +70,19 @@ func writePhase(x *explore.Ctx, cfg WConfig, prog int, tier string, mask *MaskRe
 			if x.Choose(2, pfx+"more") == 0 {
 				break
 			}
-			p = x.Choose(NProgs, pfx+"prog")
-			// (default size of a further message is the 4th boundary size, not 0)
-			sz = e.Sizes[(3+x.Choose(len(e.Sizes), pfx+"size"))%len(e.Sizes)]
+			if tier == "quick" {
+				p = []int{PWriteMessage, PSplitWrite, PAbandon, PPrepared, PReadFrom}[x.Choose(5, pfx+"prog")]
+			} else {
+				p = x.Choose(NProgs, pfx+"prog")
+			}
+			// (default size of a further message is the 4th boundary size, not 0; the quick tier
+			// offers every third boundary size for further messages)
+			if tier == "quick" {
+				k := (len(e.Sizes) + 2) / 3
+				sz = e.Sizes[(3+3*x.Choose(k, pfx+"size"))%len(e.Sizes)]
+			} else {
+				sz = e.Sizes[(3+x.Choose(len(e.Sizes), pfx+"size"))%len(e.Sizes)]
+			}
 			pick = x.Choose
 		}
 		mt, pat := websocket.BinaryMessage, 0
@@ -132,18 +152,30 @@ func wScenarios(id, tier string, body func(x *explore.Ctx, cfg WConfig, prog int
 	for _, server := range []bool{true, false} {
 		for _, comp := range []bool{false, true} {
 			for _, b := range bufs {
+				nsizes := len(SizeSet(b, tier == "thorough"))
 				for prog := 0; prog < NProgs; prog++ {
-					cfg := WConfig{Server: server, B: b, Compress: comp}
-					prog := prog
-					bd := bound
-					if tier == "thorough" && effB(b) >= 4096 {
-						bd = 2
+					for si := 1; si <= nsizes; si++ {
+						if tier == "quick" && (id == "c10" || id == "c20") && si%2 == 0 {
+							continue // the fault checks take every other boundary size in the quick tier
+						}
+						if tier == "quick" && comp && si%2 == 0 {
+							continue // with compression frame boundaries follow the compressed size: every other size
+						}
+						if tier == "quick" && b == 1 && prog != PWriteMessage && prog != PNextWriterAll {
+							continue // WriteBufferSize 1 behaves as 125 (clamp): only the basic programs exercise the clamp
+						}
+						cfg := WConfig{Server: server, B: b, Compress: comp, SizeIdx: si}
+						prog := prog
+						bd := bound
+						if tier == "thorough" && effB(b) >= 4096 {
+							bd = 2
+						}
+						scs = append(scs, &explore.Scenario{
+							Name:  fmt.Sprintf("%s/writer=%s/deflate=%v/B=%d/prog=%d/size#%d", id, roleName(server), comp, b, prog, si),
+							Bound: bd,
+							Body:  func(x *explore.Ctx) { body(x, cfg, prog, tier) },
+						})
 					}
-					scs = append(scs, &explore.Scenario{
-						Name:  fmt.Sprintf("%s/writer=%s/deflate=%v/B=%d/prog=%d", id, roleName(server), comp, b, prog),
-						Bound: bd,
-						Body:  func(x *explore.Ctx) { body(x, cfg, prog, tier) },
-					})
 				}
 			}
 		}
